@@ -304,6 +304,9 @@ Proof.
   - simpl; rewrite upd_same; split; [lia|reflexivity].
   - simpl; rewrite upd_same; split; [lia|reflexivity].
   - simpl; rewrite upd_same; split; [auto|eapply f_set_some; eauto].
+  - intros d1 Hd1 Hdone; upd_cases; auto; destruct (ds s d); simpl in *; congruence.
+  - simpl; rewrite upd_same; split; [auto|destruct (ds s d); simpl in *; congruence].
+  - intros d1 Hd1 Hdone; upd_cases; auto; destruct (ds s d); simpl in *; congruence.
 Qed.
 
 (* ---- what every step preserves of the data fields -------------------------------------------- *)
@@ -332,6 +335,7 @@ Proof.
                   first [ eapply f_cancel_mono; eassumption
                         | erewrite f_srnc_some by eassumption; assumption
                         | eapply f_set_some; eassumption ]].
+  all: intros Hdone; upd_cases; auto; destruct (ds s d); simpl in *; congruence.
 Qed.
 
 (* ---- callback tokens: a step only moves a token along, or spawns one for a delegate future that
@@ -353,7 +357,7 @@ Definition actor (e : ev) : nat :=
   match e with
   | ECallSubmit t | ECallCancel t _ | ECallAddCb t _ _ | EXSec t _ | EXAcq t | EXRel t | EEvSet t | ERet t _
   | EAcqM t _ | ERelM t _ | EFR t _ _ _ | EFD t _ _ _ | EUserCb t _ _ | EPolSR t _ | EPolST t _
-  | EDSubmit t _ _ | EEnvRun t _ _ | EEnvStart t _ | EEnvFinish t _ _ _ | EDied t => t
+  | EDSubmit t _ _ | EEnvRun t _ _ | EEnvStart t _ | EEnvFinish t _ _ _ | EDied t | EEnvCancel t _ _ => t
   | EWWait _ | EWWoke _ | EWClear => worker
   end.
 
@@ -385,6 +389,7 @@ Proof.
   all: left; (split; [assumption|]); (split; [|assumption]).
   - destruct (ds s d0); simpl in *; congruence.
   - eapply f_set_some; eassumption.
+  - destruct (ds s d); simpl in *; congruence.
 Qed.
 
 Lemma stepT s e s' : Inv s -> step0 s e = Some s' ->
